@@ -6,6 +6,9 @@ CHECKERS = dict(C20_rt.CHECKERS)
 
 
 def run(ctx):
+    from vf.pyvc import crosscheck_sym
+
+    crosscheck_sym.guard(ctx)  # the symbolic-shape tensor layer against real torch, before the clauses that rest on it
     api.run_vcs(ctx, C20_vc.p_vcs(ctx), {"C20.P.convex": "real dot-product soft attention source for SYMBOLIC sequence length, key size and value size: every output coordinate lies between any lower and upper bound of the kept values (induction over the sequence index; sum and softmax as assumed partial-sum contracts)",
                                          "C20.P.blind": "two runs of the real dot-product soft attention on keys / values that agree at the kept positions give the same output, for SYMBOLIC sequence length, key size and value size (dot products by induction over the key dimension, softmax congruence assumed, weighted sums by induction over the sequence)"})
     api.run_vcs(ctx, C20_vc.vcs(ctx), {"C20.S.convex_blind": "real dot-product / generalised soft attention source: output coordinate within [min, max] of the kept values; output unchanged when masked keys/values are replaced; all contents"},
